@@ -8,6 +8,7 @@ from __future__ import annotations
 import logging
 import math
 from abc import ABC, abstractmethod
+from datetime import datetime
 from typing import Any, Generic
 
 from frequenz.channels import Receiver, ReceiverError
@@ -400,6 +401,8 @@ class MetricFetcher(Generic[QuantityT], FormulaStep):
         self._nones_are_zeros = nones_are_zeros
         self._fallback: FallbackMetricFetcher[QuantityT] | None = fallback
         self._latest_fallback_sample: Sample[QuantityT] | None = None
+        self._latest_timestamp: datetime | None = None
+        """The timestamp of the latest sample returned by `fetch_next`."""
 
     @property
     def stream(self) -> Receiver[Sample[QuantityT]]:
@@ -492,7 +495,17 @@ class MetricFetcher(Generic[QuantityT], FormulaStep):
                 self._name,
                 err,
             )
-            return await fallback_fetcher.receive()
+            # Continue with the first fallback sample that is newer than the latest
+            # sample we returned, which might be one we already received while
+            # synchronizing with the primary stream.
+            fallback_sample = self._latest_fallback_sample
+            while fallback_sample is None or (
+                self._latest_timestamp is not None
+                and fallback_sample.timestamp <= self._latest_timestamp
+            ):
+                fallback_sample = await fallback_fetcher.receive()
+            self._latest_fallback_sample = fallback_sample
+            return fallback_sample
 
         fallback = await self._synchronize_and_fetch_fallback(primary, fallback_fetcher)
         if fallback is None:
@@ -511,6 +524,8 @@ class MetricFetcher(Generic[QuantityT], FormulaStep):
             The fetched Sample.
         """
         self._next_value = await self._fetch_next()
+        if self._next_value is not None:
+            self._latest_timestamp = self._next_value.timestamp
         return self._next_value
 
     async def _fetch_next(self) -> Sample[QuantityT] | None:
